@@ -16,10 +16,22 @@ EXPLANATION = (
     "18 BASE_STRINGs, no test shadows another, every parser call is under the BadURIError handler and every other "
     "return is UnknownURI(original input); (7) the 9 directory wrappers: BASE_STRING_RE is '^'+BASE_STRING, "
     "init_from_string/to_string swap exactly the wrapper and inner base strings; (8) a failed match raises "
-    "BadURIError before any group is used. "
+    "BadURIError before any group is used; (9) abstract execution of from_string's CFG, once per cap class, on an "
+    "unprefixed bytes input starting with that class's BASE_STRING and all options at their defaults: it ends in that "
+    "class's init_from_string applied to the unmodified input (so what to_string() produces parses back as the same "
+    "kind: negated can_be_writeable/can_be_mutable or prefix tests, a changed deep_immutable default, an unconditional "
+    "prefix strip are reported); (10) abstract execution of each file-cap constructor on the values its parser decodes "
+    "(bytes of the regex group's byte length, ints; hashutil results have the constant truncate_to length) and of "
+    "to_string on the resulting object: no length/type guard or assertion rejects them and every field to_string "
+    "writes holds its constructor parameter on that path. "
     "Undecided: base32 a2b/b2a arithmetic itself (value level), int() of huge digit strings, the free-form MDMF "
-    "extension fields (explicitly allowed to be dropped).")
-TECHNIQUE = "static analysis: regex-AST language checks on constant-folded patterns, template/decoder pairing, CFG dominance in from_string"
+    "extension fields (explicitly allowed to be dropped); what from_string does with 'ro.'/'imm.'-prefixed strings and "
+    "deep_immutable=True (flag clearing, the error/kind reported for a constraint failure - property C16), str inputs "
+    "(the encode step) and non-bytes arguments; that _SHA256d_Hasher really truncates to truncate_to (value level); "
+    "paths of the abstract executions whose tests are not decided by the scenario are followed on both sides and "
+    "only certain outcomes are reported.")
+TECHNIQUE = ("static analysis: regex-AST language checks on constant-folded patterns, template/decoder pairing, CFG dominance "
+             "in from_string, bounded abstract interpretation of from_string / cap constructors / to_string over the CFG")
 
 URI_MOD = "allmydata.uri"
 ALPHABET = "abcdefghijklmnopqrstuvwxyz234567"      # RFC 3548, lower case
@@ -350,11 +362,13 @@ def _concat(fnorm, node, e, left_path, right_forms):
     return attr_path(e.left) == left_path and fnorm.norm(node, e.right) in right_forms
 
 
-# ------------------------------------------- abstract execution (rule C15.9)
-# Abstract values: IN (the input: bytes that start with the class's BASE_STRING, no alleged prefix),
-# CUT (a proper part of the input), ("c", v) a known constant, UNK.
+# ---------------------------------- abstract execution (rules C15.9, C15.10)
+# Abstract values: IN (from_string's input: bytes that start with the class's BASE_STRING, no alleged prefix),
+# CUT (a proper part of it), ("b", nbytes|None, origin) bytes of a known length, ("i", origin) an int,
+# ("c", v) a known constant, UNK.
 IN, CUT, UNK = ("in",), ("cut",), ("?",)
 _TYPES = {"bytes": bytes, "str": str, "int": int, "bool": bool}
+OPAQUE = "!opaque"
 
 
 def _const(v):
@@ -371,176 +385,264 @@ def _truth(v):
         return True                      # starts with a non-empty BASE_STRING
     if v[0] == "c":
         return bool(v[1])
+    if v[0] == "b" and v[1] is not None:
+        return v[1] > 0
     return None
 
 
-def _aeval(e, env, F, module, base, defaults):
-    def ev(x):
-        return _aeval(x, env, F, module, base, defaults)
-    if isinstance(e, ast.Constant):
-        return _const(e.value)
-    if isinstance(e, ast.Name):
-        if e.id in env:
-            return env[e.id]
-        if e.id in defaults:
-            return defaults[e.id]
-    elif isinstance(e, ast.UnaryOp) and isinstance(e.op, ast.Not):
-        t = _truth(ev(e.operand))
-        return UNK if t is None else ("c", not t)
-    elif isinstance(e, ast.BoolOp):
-        last = UNK
-        for x in e.values:
-            last = ev(x)
-            t = _truth(last)
-            if t is None:
-                return UNK
-            if t != isinstance(e.op, ast.And):
-                return last
-        return last
-    elif isinstance(e, ast.IfExp):
-        t = _truth(ev(e.test))
-        return UNK if t is None else ev(e.body if t else e.orelse)
-    elif isinstance(e, ast.Compare) and len(e.ops) == 1:
-        a, b = ev(e.left), ev(e.comparators[0])
-        if a[0] == "c" and b[0] == "c":
-            op = e.ops[0]
-            if isinstance(op, (ast.Eq, ast.NotEq)):
-                return ("c", (a[1] == b[1]) == isinstance(op, ast.Eq))
-            if isinstance(op, (ast.Is, ast.IsNot)) and (a[1] is None or b[1] is None):
-                return ("c", (a[1] is b[1]) == isinstance(op, ast.Is))
-        return UNK
-    elif isinstance(e, ast.Subscript):
-        v = ev(e.value)
-        if v in (IN, CUT):
-            s = e.slice
-            if isinstance(s, ast.Slice) and s.upper is None and s.step is None and (
-                    s.lower is None or ev(s.lower) == ("c", 0)):
-                return v
-            return CUT
-        return UNK
-    elif isinstance(e, ast.Call) and not e.keywords:
-        if isinstance(e.func, ast.Name) and e.func.id == "isinstance" and len(e.args) == 2 and "isinstance" not in env:
-            v = ev(e.args[0])
-            ts = e.args[1].elts if isinstance(e.args[1], ast.Tuple) else [e.args[1]]
-            if all(isinstance(t, ast.Name) and t.id in _TYPES and t.id not in env for t in ts):
-                if v in (IN, CUT):
-                    return ("c", any(t.id == "bytes" for t in ts))
-                if v[0] == "c":
-                    return ("c", isinstance(v[1], tuple(_TYPES[t.id] for t in ts)))
-            return UNK
-        if isinstance(e.func, ast.Name) and e.func.id == "bool" and len(e.args) == 1 and "bool" not in env:
-            t = _truth(ev(e.args[0]))
-            return UNK if t is None else ("c", t)
-        if isinstance(e.func, ast.Attribute) and e.func.attr == "startswith" and len(e.args) == 1:
-            v, p = ev(e.func.value), ev(e.args[0])
-            if v == IN and p[0] == "c":
-                ps = p[1] if isinstance(p[1], tuple) else (p[1],)
-                if not all(isinstance(x, bytes) for x in ps):
+def _hash_len(idx, F, module, call, depth=3):
+    """Byte length of a hashutil helper's result: the constant truncate_to its tagged_hash / tagged_pair_hash
+    call is given (helpers that only return another helper's call are followed); None when not known."""
+    tgt = idx.resolve_expr(module, call.func)
+    if not isinstance(tgt, FuncInfo) or tgt.module.name != "allmydata.util.hashutil":
+        return None
+    if tgt.name in ("tagged_hash", "tagged_pair_hash"):
+        if "truncate_to" not in tgt.params:
+            return None
+        a = arg(call, tgt.params.index("truncate_to"), "truncate_to")
+        if a is None:
+            return None
+        try:
+            v = F.fold(a, module, None)
+        except Exception:
+            return None
+        return v if isinstance(v, int) and not isinstance(v, bool) and v > 0 else None
+    body = [x for x in tgt.body if not (isinstance(x, ast.Expr) and isinstance(x.value, ast.Constant))]
+    if depth > 0 and len(body) == 1 and isinstance(body[0], ast.Return) and isinstance(body[0].value, ast.Call):
+        return _hash_len(idx, F, tgt.module, body[0].value, depth - 1)
+    return None
+
+
+class _AI:
+    """Bounded abstract interpreter over one function's CFG.  'exc' edges are not followed: the scenarios are
+    well-formed values, and the outcomes of interest are returns, explicit raises, failed assertions and the end."""
+
+    def __init__(self, idx, F, fn, base=None):
+        self.idx, self.F, self.fn, self.base = idx, F, fn, base
+        self.module = fn.module
+
+    def ev(self, e, env):
+        F, base = self.F, self.base
+        if isinstance(e, ast.Constant):
+            return _const(e.value)
+        if isinstance(e, ast.Name):
+            if e.id in env:
+                return env[e.id]
+        elif isinstance(e, ast.Attribute) and attr_path(e) and attr_path(e) in env:
+            return env[attr_path(e)]
+        elif isinstance(e, ast.Attribute) and attr_path(e) and attr_path(e).split(".")[0] in env:
+            return UNK                   # attribute of a local object: not a module constant
+        elif isinstance(e, ast.UnaryOp) and isinstance(e.op, ast.Not):
+            t = _truth(self.ev(e.operand, env))
+            return UNK if t is None else ("c", not t)
+        elif isinstance(e, ast.BoolOp):
+            last = UNK
+            for x in e.values:
+                last = self.ev(x, env)
+                t = _truth(last)
+                if t is None:
                     return UNK
-                if any(base.startswith(x) for x in ps):
-                    return ("c", True)
-                if any(x.startswith(base) for x in ps):
-                    return UNK              # depends on the bytes after BASE_STRING
-                return ("c", False)
+                if t != isinstance(e.op, ast.And):
+                    return last
+            return last
+        elif isinstance(e, ast.IfExp):
+            t = _truth(self.ev(e.test, env))
+            return UNK if t is None else self.ev(e.body if t else e.orelse, env)
+        elif isinstance(e, ast.Compare) and len(e.ops) == 1:
+            a, b = self.ev(e.left, env), self.ev(e.comparators[0], env)
+            op = e.ops[0]
+            if a[0] == "c" and b[0] == "c":
+                if isinstance(op, (ast.Eq, ast.NotEq)):
+                    return ("c", (a[1] == b[1]) == isinstance(op, ast.Eq))
+                if isinstance(op, (ast.Is, ast.IsNot)) and (a[1] is None or b[1] is None):
+                    return ("c", (a[1] is b[1]) == isinstance(op, ast.Is))
+                if isinstance(op, (ast.Lt, ast.LtE, ast.Gt, ast.GtE)) and all(
+                        isinstance(x[1], int) and not isinstance(x[1], bool) for x in (a, b)):
+                    return ("c", {ast.Lt: a[1] < b[1], ast.LtE: a[1] <= b[1], ast.Gt: a[1] > b[1],
+                                  ast.GtE: a[1] >= b[1]}[type(op)])
+            elif isinstance(op, (ast.Is, ast.IsNot)):
+                for x, y in ((a, b), (b, a)):
+                    if x == ("c", None) and (y in (IN, CUT) or y[0] in ("b", "i")):
+                        return ("c", isinstance(op, ast.IsNot))
             return UNK
-        if isinstance(e.func, ast.Name) and e.func.id == "len" and len(e.args) == 1 and "len" not in env:
-            v = ev(e.args[0])
-            if v[0] == "c" and isinstance(v[1], (bytes, str, tuple)):
-                return ("c", len(v[1]))
+        elif isinstance(e, ast.Subscript):
+            v = self.ev(e.value, env)
+            if v in (IN, CUT):
+                sl = e.slice
+                if isinstance(sl, ast.Slice) and sl.upper is None and sl.step is None and (
+                        sl.lower is None or self.ev(sl.lower, env) == ("c", 0)):
+                    return v
+                return CUT
             return UNK
-    try:
-        return _const(F.fold(e, module, None))
-    except Exception:
-        return UNK
+        elif isinstance(e, ast.Call) and not e.keywords:
+            if isinstance(e.func, ast.Name) and e.func.id == "isinstance" and len(e.args) == 2 and "isinstance" not in env:
+                v = self.ev(e.args[0], env)
+                ts = e.args[1].elts if isinstance(e.args[1], ast.Tuple) else [e.args[1]]
+                if all(isinstance(t, ast.Name) and t.id in _TYPES and t.id not in env for t in ts):
+                    if v in (IN, CUT) or v[0] == "b":
+                        return ("c", any(t.id == "bytes" for t in ts))
+                    if v[0] == "i":
+                        return ("c", any(t.id == "int" for t in ts))
+                    if v[0] == "c":
+                        return ("c", isinstance(v[1], tuple(_TYPES[t.id] for t in ts)))
+                return UNK
+            if isinstance(e.func, ast.Name) and e.func.id == "bool" and len(e.args) == 1 and "bool" not in env:
+                t = _truth(self.ev(e.args[0], env))
+                return UNK if t is None else ("c", t)
+            if isinstance(e.func, ast.Attribute) and e.func.attr == "startswith" and len(e.args) == 1:
+                v, p = self.ev(e.func.value, env), self.ev(e.args[0], env)
+                if v == IN and p[0] == "c" and base is not None:
+                    ps = p[1] if isinstance(p[1], tuple) else (p[1],)
+                    if not all(isinstance(x, bytes) for x in ps):
+                        return UNK
+                    if any(base.startswith(x) for x in ps):
+                        return ("c", True)
+                    if any(x.startswith(base) for x in ps):
+                        return UNK          # depends on the bytes after BASE_STRING
+                    return ("c", False)
+                return UNK
+            if isinstance(e.func, ast.Name) and e.func.id == "len" and len(e.args) == 1 and "len" not in env:
+                v = self.ev(e.args[0], env)
+                if v[0] == "c" and isinstance(v[1], (bytes, str, tuple)):
+                    return ("c", len(v[1]))
+                if v[0] == "b" and v[1] is not None:
+                    return ("c", v[1])
+                return UNK
+            n = _hash_len(self.idx, F, self.module, e)
+            if n is not None:
+                return ("b", n, "hash")
+            return UNK
+        if any(isinstance(x, ast.Name) and x.id in env for x in ast.walk(e)):
+            return UNK
+        try:
+            return _const(F.fold(e, self.module, None))
+        except Exception:
+            return UNK
+
+    def defaults(self):
+        a = self.fn.node.args
+        pos = list(a.posonlyargs) + list(a.args)
+        out = {}
+        for p, d in zip(pos[len(pos) - len(a.defaults):], a.defaults):
+            out[p.arg] = self.ev(d, {})
+        for p, d in zip(a.kwonlyargs, a.kw_defaults):
+            if d is not None:
+                out[p.arg] = self.ev(d, {})
+        for p in pos + list(a.kwonlyargs):
+            out.setdefault(p.arg, UNK)
+        if a.vararg:
+            out[a.vararg.arg] = ("c", ())
+        if a.kwarg:
+            out[a.kwarg.arg] = UNK
+        return out
+
+    def run(self, given):
+        """-> ([(node, kind 'return'|'raise'|'end', env at that point, exact, witness)], number of product states).
+        `exact`: every test on the path had a known outcome, so the scenario certainly takes it."""
+        fn, cfg = self.fn, self.fn.cfg()
+        env0 = self.defaults()
+        env0.update(given)
+
+        def freeze(env, exact):
+            return (tuple(sorted(env.items())), exact)
+
+        def transfer(n, lab, nxt, state):
+            if lab == "exc":
+                return None
+            items, exact = state
+            env = dict(items)
+            if n.kind == "test":
+                t = _truth(self.ev(n.ast, env))
+                if isinstance(lab, tuple) and lab[0] in ("T", "F"):
+                    if t is None:
+                        return freeze(env, False)
+                    return state if (lab[0] == "T") == t else None
+                return freeze(env, False)
+            if n.kind == "stmt" and isinstance(n.ast, (ast.Return, ast.Raise)):
+                return None
+            if n.kind == "stmt" and isinstance(n.ast, ast.Assign):
+                v = self.ev(n.ast.value, env)
+                for t in n.ast.targets:
+                    if isinstance(t, ast.Name):
+                        env[t.id] = v
+                    elif isinstance(t, ast.Attribute) and attr_path(t):
+                        env[attr_path(t)] = v
+                    else:
+                        for x in ast.walk(t):
+                            if isinstance(x, ast.Name) and isinstance(x.ctx, ast.Store):
+                                env[x.id] = UNK
+                            elif isinstance(x, ast.Attribute) and isinstance(x.ctx, ast.Store) and attr_path(x):
+                                env[attr_path(x)] = UNK
+                return freeze(env, exact)
+            if n.kind == "stmt" and isinstance(n.ast, ast.AnnAssign) and isinstance(n.ast.target, ast.Name) \
+                    and n.ast.value is not None:
+                env[n.ast.target.id] = self.ev(n.ast.value, env)
+                return freeze(env, exact)
+            for st in node_stores(n):
+                if not st.endswith("[]"):
+                    env[st] = UNK
+            if n.kind == "stmt" and isinstance(n.ast, ast.Expr) and isinstance(n.ast.value, ast.Call):
+                c = n.ast.value
+                if any(isinstance(x, ast.Name) and x.id in ("self", "super") for x in ast.walk(c)):
+                    env[OPAQUE] = ("c", True)        # may set attributes of self behind our back
+            if n.kind == "iter":
+                exact = False
+            return freeze(env, exact)
+
+        init = freeze(env0, True)
+        visited, parent = explore(cfg, init, transfer)
+        out = []
+        for (i, st) in sorted(visited, key=lambda x: (x[0], not x[1][1], repr(x[1][0]))):
+            n = cfg.nodes[i]
+            if n.kind == "stmt" and isinstance(n.ast, ast.Return):
+                kind = "return"
+            elif (n.kind == "stmt" and isinstance(n.ast, ast.Raise)) or n.kind == "raise":
+                kind = "raise"                        # explicit raise, or the false edge of an assertion
+            elif n.kind == "exit":
+                kind = "end"
+            else:
+                continue
+            w = witness(cfg, parent, (i, st))
+            at = n
+            if n.ast is None:
+                prev = [x for (x, _l) in w.path if x.ast is not None]
+                at = prev[-1] if prev else n
+            out.append((at, kind, dict(st[0]), st[1], w))
+        return out, len(visited)
 
 
 def _abstract_run(idx, F, fn, cfg, base):
-    """Execute fn's CFG on (first parameter = IN, other parameters = their defaults).  'exc' edges are not followed
-    (the scenario is a well-formed cap: the only outcomes of interest are returns and explicit raises).
-    -> ([(node, what, argument value, exact, witness)], number of product states); `exact` = every test on the
-    path had a known outcome, so this input certainly takes it."""
-    a = fn.node.args
-    pos = list(a.posonlyargs) + list(a.args)
-    if not pos:
+    """from_string on (first parameter = IN, other parameters = their defaults) ->
+    ([(node, what, argument value, exact, witness)], states)."""
+    ai = _AI(idx, F, fn, base)
+    ps = first_positional_params(fn)
+    if not ps:
         raise AnchorVanished("%s has no positional parameter" % fn.qual)
-    defaults = {}
-    for p, d in zip(pos[len(pos) - len(a.defaults):], a.defaults):
-        defaults[p.arg] = _aeval(d, {}, F, fn.module, base, {})
-    for p, d in zip(a.kwonlyargs, a.kw_defaults):
-        if d is not None:
-            defaults[p.arg] = _aeval(d, {}, F, fn.module, base, {})
-    for p in pos[1:] + list(a.kwonlyargs):
-        defaults.setdefault(p.arg, UNK)
-    if a.vararg:
-        defaults[a.vararg.arg] = ("c", ())
-    if a.kwarg:
-        defaults[a.kwarg.arg] = UNK
-    env0 = dict(defaults)
-    env0[pos[0].arg] = IN
-
-    def freeze(env, exact):
-        return (tuple(sorted(env.items())), exact)
-
-    def transfer(n, lab, nxt, state):
-        if lab == "exc":
-            return None
-        items, exact = state
-        env = dict(items)
-        if n.kind == "test":
-            t = _truth(_aeval(n.ast, env, F, fn.module, base, {}))
-            if isinstance(lab, tuple) and lab[0] in ("T", "F"):
-                if t is None:
-                    return freeze(env, False)
-                return state if (lab[0] == "T") == t else None
-            return freeze(env, False)
-        if n.kind == "stmt" and isinstance(n.ast, (ast.Return, ast.Raise)):
-            return None
-        if n.kind == "stmt" and isinstance(n.ast, ast.Assign):
-            v = _aeval(n.ast.value, env, F, fn.module, base, {})
-            for t in n.ast.targets:
-                if isinstance(t, ast.Name):
-                    env[t.id] = v
-                else:
-                    for x in ast.walk(t):
-                        if isinstance(x, ast.Name) and isinstance(x.ctx, ast.Store):
-                            env[x.id] = UNK
-            return freeze(env, exact)
-        if n.kind == "stmt" and isinstance(n.ast, ast.AnnAssign) and isinstance(n.ast.target, ast.Name) \
-                and n.ast.value is not None:
-            env[n.ast.target.id] = _aeval(n.ast.value, env, F, fn.module, base, {})
-            return freeze(env, exact)
-        for s in node_stores(n):
-            if "." not in s and not s.endswith("[]"):
-                env[s] = UNK
-        if n.kind == "iter":
-            exact = False
-        return freeze(env, exact)
-
-    init = freeze(env0, True)
-    visited, parent = explore(cfg, init, transfer)
+    outs, nstates = ai.run({ps[0]: IN})
     out = []
-    for (i, st) in sorted(visited, key=lambda x: (x[0], not x[1][1])):
-        n = cfg.nodes[i]
-        if n.kind != "stmt" or not isinstance(n.ast, (ast.Return, ast.Raise)):
-            continue
-        env, exact = dict(st[0]), st[1]
-        what, argv = ("other",), UNK
-        if isinstance(n.ast, ast.Raise):
-            what = ("raise",)
-        else:
+    for (n, kind, env, exact, w) in outs:
+        what, argv = (kind,), UNK
+        if kind == "return":
             v = n.ast.value
+            what = ("other",)
             if isinstance(v, ast.Call) and call_tail(v) == "init_from_string" and isinstance(v.func, ast.Attribute):
                 k = idx.resolve_expr(fn.module, v.func.value)
                 if isinstance(k, ClassInfo):
                     what = ("parse", k.qual)
                     a0 = arg(v, 0, "uri")
-                    argv = _aeval(a0, env, F, fn.module, base, {}) if a0 is not None else UNK
-        out.append((n, what, argv, exact, witness(cfg, parent, (i, st))))
-    return out, len(visited)
+                    argv = ai.ev(a0, env) if a0 is not None else UNK
+        out.append((n, what, argv, exact, w))
+    return out, nstates
 
 
 def _outcome_text(fn, o):
-    return "`%s`" % src(fn, o[0].ast)[:70]
+    n = o[0]
+    if n.ast is None:
+        return "the end of the function"
+    t = "`%s`" % src(fn, n.ast)[:70]
+    if o[1] in (("raise",), "raise") and not isinstance(n.ast, ast.Raise):
+        t = "an assertion that fails at " + t
+    return t
 
 
 # --------------------------------------------------------------------- run
@@ -629,6 +731,8 @@ def run(ctx: Context):
 
     # -- 4 / 5. groups <-> template <-> codecs ------------------------------
     numeric = []
+    parsed = {}         # class qual -> (__init__, to_string, {ctor parameter: abstract value the parser passes})
+    written = {}        # class qual -> {stored field path written by to_string: ctor parameter}
     with ctx.rule("C15.4", "R5", "regex groups, decoders, constructor parameters, stored fields, encoders and the "
                   "to_string template agree position by position; base32 groups are canonical with the field's byte length",
                   expected=27) as r:
@@ -690,6 +794,16 @@ def run(ctx: Context):
                 if by_group and seen != by_group:
                     r.violation(ci.qual, fn.loc(n.ast), "%s.init_from_string: returns disagree on the group mapping" % ci.name)
                 by_group = by_group or seen
+            if parse_ok:
+                pv = {}
+                for g in groups:
+                    dec, pname = by_group.get(g[1], (None, None))
+                    kind = _classify(g[2])
+                    if dec == "a2b" and kind[0] in ("b32", "b32any"):
+                        pv[pname] = ("b", kind[1] if kind[0] == "b32" else None, pname)
+                    elif dec == "int" and kind[0] == "num":
+                        pv[pname] = ("i", pname)
+                parsed[ci.qual] = (init, ts, pv)
             for n in trets:
                 s, e = _nf_ast(tnorm, n, n.ast.value)
                 lead = None
@@ -750,6 +864,7 @@ def run(ctx: Context):
                     r.require((dec, enc) in {("a2b", "b2a"), ("int", "int")}, ci.qual, ts.loc(n.ast),
                               "%s: parsed with %s but written with %s" % (what, dec, "%d" if enc == "int" else enc))
                     # the stored field is the constructor parameter the group was decoded into
+                    written.setdefault(ci.qual, {})[fld] = pname
                     vals = idefs.get(fld, [])
                     ok = bool(vals) and all(isinstance(x, ast.Name) and x.id == pname for x in vals)
                     r.require(ok, ci.qual, ts.loc(n.ast), "%s: to_string writes %s, which __init__ does not set to the "
@@ -1018,3 +1133,67 @@ def run(ctx: Context):
                 elif exact:
                     r.violation(q, fn.loc(n.ast), "from_string(%s cap, options at their defaults) ends in %s, not in "
                                 "%s.init_from_string" % (k.name, _outcome_text(fn, (n, what, argv, exact, w)), k.name), w)
+
+    # -- 10. constructor and to_string accept what the parser produces -----
+    with ctx.rule("C15.10", "R3", "abstract execution of each file-cap class's __init__ on the values its parser "
+                  "decodes (bytes of the regex group's length, ints) and of to_string on the resulting object: neither "
+                  "raises / fails an assertion, and every field to_string writes holds its constructor parameter",
+                  expected=18) as r:
+        for ci in files:
+            if ci.qual not in parsed:
+                r.site(ci.qual, None, "skipped: C15.4 could not pair the parser with the constructor")
+                r.site(ci.qual, None, "skipped")
+                continue
+            init, ts, pv = parsed[ci.qual]
+            if not init.params or not ts.params:
+                raise AnchorVanished("%s.__init__ / to_string has no self parameter" % ci.qual)
+            me = init.params[0]
+            r.site(init, None, "values %s" % sorted((k, v[:2]) for k, v in pv.items()))
+            outs, nstates = _AI(idx, F, init).run(dict(pv))
+            r.count(nstates)
+            ends = [o for o in outs if o[1] in ("end", "return")]
+            for o in outs:
+                if o[1] == "raise" and o[3]:
+                    r.violation(ci.qual, init.loc(o[0].ast), "%s.__init__ ends in %s for the values %s.init_from_string "
+                                "decodes from a matching string (%s): every such cap string is reported as unknown / "
+                                "raises instead of parsing" % (
+                                    ci.name, _outcome_text(init, o), ci.name,
+                                    ", ".join("%s: %s" % (k, ("%s bytes" % v[1] if v[1] is not None else "bytes") if v[0] == "b" else "int")
+                                              for k, v in sorted(pv.items()))), o[4])
+            if not ends:
+                if not any(o[1] == "raise" and o[3] for o in outs):
+                    r.violation(ci.qual, init.loc(), "%s.__init__ cannot complete on the values its parser decodes" % ci.name)
+                r.site(ts, None, "skipped: constructor does not complete")
+                continue
+            flds = written.get(ci.qual, {})
+            for o in ends:
+                env = o[2]
+                if not o[3] or OPAQUE in env:
+                    continue
+                for fld, pname in sorted(flds.items()):
+                    path = me + fld[len("self"):]
+                    if pname not in pv:
+                        continue
+                    got = env.get(path)
+                    if got is None:
+                        r.violation(ci.qual, init.loc(), "%s.__init__ leaves %s unset on the path a parsed cap takes: "
+                                    "to_string() of the parsed object cannot reproduce parameter %s" % (ci.name, fld, pname), o[4])
+                    elif got != UNK and got != pv[pname]:
+                        r.violation(ci.qual, init.loc(), "%s.__init__ stores something else than parameter %s in %s on the "
+                                    "path a parsed cap takes" % (ci.name, pname, fld), o[4])
+            # to_string on the constructed object (state of the exact end of __init__, else the declared values)
+            exact_ends = [o for o in ends if o[3]]
+            tself = ts.params[0]
+            if exact_ends:
+                state = {tself + k[len(me):]: v for k, v in exact_ends[0][2].items() if k.startswith(me + ".")}
+            else:
+                state = {tself + f[len("self"):]: pv[pn] for f, pn in flds.items() if pn in pv}
+            r.site(ts, None, "fields %s" % sorted(state))
+            outs, nstates = _AI(idx, F, ts).run(state)
+            r.count(nstates)
+            for o in outs:
+                if o[1] == "raise" and o[3]:
+                    r.violation(ci.qual, ts.loc(o[0].ast), "%s.to_string ends in %s for an object built from a parsed cap" % (
+                        ci.name, _outcome_text(ts, o)), o[4])
+            if not any(o[1] == "return" for o in outs):
+                r.violation(ci.qual, ts.loc(), "%s.to_string cannot reach a return for an object built from a parsed cap" % ci.name)
